@@ -590,6 +590,9 @@ class Balancer:
         if len(shift_amount_values) != 1:
             return truism
         shift_amount = shift_amount_values[0]
+        if shift_amount == 0 or shift_amount >= len(expr):
+            # nothing to undo, or nothing left of expr: the slices below do not exist
+            return truism
 
         rhs_lower = claripy.Extract(shift_amount - 1, 0, rhs)
         rhs_lower_values = claripy.backends.vsa.eval(rhs_lower, 2)
